@@ -63,4 +63,14 @@ Proof.
   rewrite mapM_rd_seq by lia. cbn [bind]. rewrite firstn_all2 by (rewrite skipn_length; lia). reflexivity.
 Qed.
 
+(* all of them at once: what a Props file pins as  model_is_source_<property>  *)
+Definition model_is_source_Vec64 : Prop :=
+  (forall a b n, s_linspace a b n = linspace a b n) /\
+  (forall a b n p, s_powspace powf a b n p = powspace powf a b n p) /\
+  (forall v p, s_norm_p fabs powf v p = norm_p fabs powf v p) /\
+  (forall v, (forall y : T A, powf y (add one one) = mul y y) -> s_norm_2 fabs powf v = Ok (norm_2 fabs v)) /\
+  (forall v, s_norm_inf fabs v = norm_inf fabs v).
+Lemma model_is_source_Vec64_lemma : model_is_source_Vec64.
+Proof. exact (conj src_linspace (conj src_powspace (conj src_norm_p (conj src_norm_2 src_norm_inf)))). Qed.
+
 End SrcEqVec64.
